@@ -5,6 +5,7 @@
 //!   seed=<u64>            one integer decides schedule, steal victims and faults
 //!   policy=<policy>       see sched::Policy::parse (random | sticky:N | pct:D:E | starve:V:S | runtoblock)
 //!   hot=<0..65536>        thinning rate of header-word scheduling points
+//!   hotsweep=<0..65536>   the same while the concurrent sweeper is running (default: hot)
 //!   pminor,pfull,pfail    per-65536 probability of an injected minor GC / full GC /
 //!                         one-shot allocation failure at each Gc::alloc
 //!   burst=<n>             maximum burst length of injected allocation faults
@@ -89,7 +90,7 @@ pub fn write_stats(outcome: &str) {
         out = outcome.to_string();
     }
     let text = format!(
-        "{{\"outcome\":\"{}\",\"decisions\":{},\"choice_points\":{},\"preemptions\":{},\"trace_hash\":\"{:016x}\",\"max_task\":{},\"points\":{},\"hot_points\":{},\"hot_taken\":{},\"allocs\":{},\"gc_minor_injected\":{},\"gc_full_injected\":{},\"alloc_fail_injected\":{},\"stw_operations\":{},\"probes\":[{}],\"fired\":[{}]}}\n",
+        "{{\"outcome\":\"{}\",\"decisions\":{},\"choice_points\":{},\"preemptions\":{},\"trace_hash\":\"{:016x}\",\"max_task\":{},\"points\":{},\"hot_points\":{},\"hot_taken\":{},\"allocs\":{},\"gc_minor_injected\":{},\"gc_full_injected\":{},\"alloc_fail_injected\":{},\"stw_operations\":{},\"sweeps\":{},\"probes\":[{}],\"fired\":[{}]}}\n",
         json_escape(&out),
         rec.decisions.len().max(rec.choice_points as usize),
         rec.choice_points,
@@ -104,6 +105,7 @@ pub fn write_stats(outcome: &str) {
         fault::FIRED_FULL.load(Ordering::Relaxed),
         fault::FIRED_FAIL.load(Ordering::Relaxed),
         crate::monitor::STW_COUNT.load(Ordering::Relaxed),
+        crate::monitor::SWEEPS.load(Ordering::Relaxed),
         probes.join(","),
         fired_s.join(",")
     );
@@ -130,6 +132,7 @@ where
     let seed = get("seed", 1);
     let policy = cfg.get("policy").and_then(|p| Policy::parse(p)).unwrap_or(Policy::Random);
     crate::set_hot_rate(get("hot", 0), crate::prng::derive(seed, "hot", 0));
+    crate::set_hot_rate_sweep(get("hotsweep", get("hot", 0)));
     crate::seed_data(seed);
     let explicit = cfg.get("faults").map(|s| {
         s.split(';')
@@ -146,6 +149,11 @@ where
             .collect::<Vec<_>>()
     });
     fault::configure(seed, get("pminor", 0), get("pfull", 0), get("pfail", 0), get("burst", 0), explicit, get("record", 0) != 0);
+    if let Some(list) = cfg.get("nomonitor") {
+        for name in list.split('+') {
+            crate::monitor::disable(name);
+        }
+    }
     *STATS_PATH.lock().unwrap() = cfg.get("stats").cloned();
     unsafe {
         libc::atexit(at_exit);
